@@ -143,7 +143,7 @@ func Run(targets []Pkg, resolve map[string]string) (*Result, error) {
 	res := &Result{Counts: map[string]int{}}
 	for _, l := range ls {
 		for i, f := range l.files {
-			in := &inst{fset: fset, info: l.info, skip: map[ast.Node]bool{}, chanR: map[*ast.RangeStmt]bool{}, selBlocks: map[*ast.BlockStmt]bool{}, res: res}
+			in := &inst{fset: fset, info: l.info, skip: map[ast.Node]bool{}, chanR: map[*ast.RangeStmt]bool{}, selBlocks: map[*ast.BlockStmt]bool{}, blockPos: map[*ast.BlockStmt]token.Pos{}, res: res}
 			astutil.Apply(f, in.pre, in.post)
 			if in.used {
 				astutil.AddImport(fset, f, SimrtPath)
@@ -182,13 +182,16 @@ type inst struct {
 	skip      map[ast.Node]bool
 	chanR     map[*ast.RangeStmt]bool
 	selBlocks map[*ast.BlockStmt]bool
+	blockPos  map[*ast.BlockStmt]token.Pos // source position of the statement a generated block replaces
 	nsel      int
 	used      bool
 	res       *Result
 }
 
-func (in *inst) site(n ast.Node, kind string) ast.Expr {
-	p := in.fset.Position(n.Pos())
+func (in *inst) site(n ast.Node, kind string) ast.Expr { return in.siteAt(n.Pos(), kind) }
+
+func (in *inst) siteAt(pos token.Pos, kind string) ast.Expr {
+	p := in.fset.Position(pos)
 	id := fmt.Sprintf("%s:%d:%d:%s", filepath.Base(p.Filename), p.Line, p.Column, kind)
 	if kind != "stmt" {
 		in.res.Sites = append(in.res.Sites, id)
@@ -335,6 +338,7 @@ func (in *inst) post(c *astutil.Cursor) bool {
 	case *ast.SelectStmt:
 		b := in.selectStmt(n)
 		in.selBlocks[b] = true
+		in.blockPos[b] = n.Pos()
 		c.Replace(b)
 	case *ast.LabeledStmt:
 		// `L: select {…}` became `L: { pre…; switch … }`: move the label onto
@@ -376,7 +380,12 @@ func (in *inst) preemptList(list []ast.Stmt) []ast.Stmt {
 				}
 			}
 		}
-		if want && st.Pos().IsValid() {
+		if b, ok := st.(*ast.BlockStmt); ok && in.selBlocks[b] && in.blockPos[b].IsValid() {
+			// a rewritten select: its channel and value operands are evaluated
+			// on entry, before Select parks — the window between the previous
+			// statement and that evaluation needs its own scheduling point
+			out = append(out, &ast.ExprStmt{X: in.call("Preempt", in.siteAt(in.blockPos[b], "stmt"))})
+		} else if want && st.Pos().IsValid() {
 			out = append(out, &ast.ExprStmt{X: in.call("Preempt", in.site(st, "stmt"))})
 		}
 		out = append(out, st)
